@@ -1,5 +1,6 @@
 import HeraProofs.Props.C04
 import HeraProofs.Props.C04b
+import HeraProofs.Props.C04c
 open Hera
 #print axioms convert_abstract
 #print axioms convert_regbranch
@@ -9,3 +10,7 @@ open Hera
 #print axioms C04_codeLen_expansion
 #print axioms C04_label_is_stream_index
 #print axioms C04_dlabel_value
+#print axioms C04_reach_accept
+#print axioms C04_reach_reject
+#print axioms sbyte_of_reach
+#print axioms C04_reach_lands
